@@ -222,7 +222,6 @@ class FileInfo:
         if new_checksum == self.crc:
             return  # Same data, don't do anything.
 
-        self.crc = new_checksum
         # noinspection PyProtectedMember
         prefix = self.vpk._dir_prefix
 
@@ -234,27 +233,30 @@ class FileInfo:
         # The rest has to go after the tree or into the numeric file.
         dir_limit = min(dir_limit, MAX_PRELOAD)
 
-        self.start_data = data[:dir_limit]
+        start_data = data[:dir_limit]
         arch_data = data[dir_limit:]
+        offset = 0
 
-        self.arch_len = len(arch_data)
-
-        if self.arch_len:
-            self.arch_index = arch_index
-            if arch_index is None:
-                # Stored in the _dir file after the tree. That is rewritten by write_dirfile(),
-                # and offsets are relative to the end of the tree.
-                self.offset = len(self.vpk.footer_data)
-                self.vpk.footer_data += arch_data
-            else:
-                arch_file = get_arch_filename(prefix, arch_index)
-                with open(os.path.join(self.vpk.folder, arch_file), 'ab') as file:
-                    self.offset = file.seek(0, os.SEEK_END)
-                    file.write(arch_data)
-        else:
+        if not arch_data:
             # Only stored in the main index
-            self.arch_index = None
-            self.offset = 0
+            arch_index = None
+        elif arch_index is None:
+            # Stored in the _dir file after the tree. That is rewritten by write_dirfile(),
+            # and offsets are relative to the end of the tree.
+            offset = len(self.vpk.footer_data)
+            self.vpk.footer_data += arch_data
+        else:
+            arch_file = get_arch_filename(prefix, arch_index)
+            with open(os.path.join(self.vpk.folder, arch_file), 'ab') as file:
+                offset = file.seek(0, os.SEEK_END)
+                file.write(arch_data)
+
+        # Only change the entry once the data is stored, if that fails the old contents are kept.
+        self.crc = new_checksum
+        self.start_data = start_data
+        self.arch_len = len(arch_data)
+        self.arch_index = arch_index
+        self.offset = offset
 
 
 class VPK:
